@@ -141,7 +141,15 @@ struct LaunchRequestHandler {}
 impl Handler<LaunchRequest> for LaunchRequestHandler {
     fn handle(&self, conn: &mut DebugSession, args: LaunchRequestArguments) -> MosResult<()> {
         conn.no_debug = args.no_debug.unwrap_or_default();
-        let cfg = conn.lock_lsp().config().unwrap();
+        let cfg = match conn.lock_lsp().config() {
+            Some(cfg) => cfg,
+            None => {
+                return Err(Diagnostics::from(Diagnostic::error().with_message(
+                    "Could not launch debugging session. No valid mos.toml found in the workspace.",
+                ))
+                .into());
+            }
+        };
 
         let root = PathBuf::from(args.workspace.clone());
         let src_path = root.join(PathBuf::from(&cfg.build.entry));
